@@ -267,6 +267,17 @@ func run(scriptPath string) int {
 					delete(occupied, st.Port)
 				}
 				done <- nil
+			case "signals":
+				// a mixed burst, e.g. Text "sigint,sigterm"
+				for _, name := range strings.Split(st.Text, ",") {
+					sig := syscall.SIGTERM
+					if name == "sigint" {
+						sig = syscall.SIGINT
+					}
+					syscall.Kill(os.Getpid(), sig)
+				}
+				time.Sleep(5 * time.Second) // the process is expected to exit meanwhile
+				done <- fmt.Errorf("still alive 5s after %s", st.Text)
 			case "sigterm", "sigint":
 				sig := syscall.SIGTERM
 				if st.Op == "sigint" {
